@@ -6,6 +6,7 @@
 -/
 import ElfVerif.Lemmas.Stream
 import ElfVerif.Lemmas.FaultEquiv
+import ElfVerif.Lemmas.FailSurface
 namespace Elf.C17
 
 /-- **A failing seek makes `load_bytes` fail**, and nothing is cached. -/
@@ -227,5 +228,49 @@ example : (openStream .any ⟨hdr64, 0, [.none, .fail], []⟩).1.isOk = false :=
 example : (openStream .any ⟨hdr64, 0, [.none, .none, .eof], []⟩).1.isOk = false := by decide +kernel
 example : (openStream .any ⟨hdr64, 0, [.none, .none, .short 3, .interrupted, .none, .none, .none, .fail, .eof], []⟩).1.isOk = true := by
   decide +kernel
+
+/-! ## Every I/O failure surfaces as an error
+
+  `Clean d d'`: the schedule entries consumed between device states `d` and `d'` contain no `fail`
+  (on a seek or a read) and no premature `eof` on a read.  Contrapositive reading: if any I/O call an
+  operation makes fails, the operation returns `Err`. -/
+
+/-- **`open_stream` returns `Ok` only if none of its I/O calls failed.** -/
+theorem open_ok_means_no_failed_io (sp : Spec) (dev : Device) (s : ElfStream) (d : Device)
+    (h : openStream sp dev = (.ok s, d)) : Clean dev s.reader.dev := openStream_ok_clean sp dev s d h
+
+/-- **A query returns `Ok` only if none of its I/O calls failed** — all 12 queries, any state, any schedule. -/
+theorem query_ok_means_no_failed_io (q : Query) (s : ElfStream) (h : q.isOk s = true) :
+    Clean s.reader.dev (q.after s).reader.dev := Query.ok_clean q s h
+
+/-- every query of the history returned `Ok` -/
+def AllOk : List Query → ElfStream → Prop
+  | [], _ => True
+  | q :: qs, s => q.isOk s = true ∧ AllOk qs (q.after s)
+
+/-- **…and so for every history**: if every query of a history returned `Ok`, no I/O call made during
+    the whole history failed. -/
+theorem history_ok_means_no_failed_io (qs : List Query) (s : ElfStream) (h : AllOk qs s) :
+    Clean s.reader.dev (qs.foldl (fun s q => q.after s) s).reader.dev := by
+  induction qs generalizing s with
+  | nil => exact Clean.refl _
+  | cons q qs ih => exact (Query.ok_clean q s h.1).trans (ih _ h.2)
+
+/-- reading `Clean` on a single consumed entry: it was not a hard failure -/
+theorem clean_single (d d' : Device) (f : Fault) (h : Clean d d') (hs : d.sched = f :: d'.sched) : f ≠ .fail := by
+  obtain ⟨used, e, p⟩ := h
+  rw [hs] at e
+  have : used.map (·.1) = [f] := by
+    have : [f] ++ d'.sched = used.map (·.1) ++ d'.sched := by simpa using e
+    exact (List.append_cancel_right this).symm
+  match used, this with
+  | [x], hx =>
+    simp only [List.map_cons, List.map_nil, List.cons.injEq, and_true] at hx
+    rw [← hx]; exact (p x (List.mem_cons_self ..)).1
+
+/- Non-vacuity: the successful open above consumed `[none, none, short 3, interrupted, none, none, none]`
+   and left `[fail, eof]` for later calls. -/
+example : ((openStream .any ⟨hdr64, 0, [.none, .none, .short 3, .interrupted, .none, .none, .none, .fail, .eof], []⟩).2).sched
+    = [.fail, .eof] := by decide +kernel
 
 end Elf.C17
